@@ -397,6 +397,10 @@ pub(crate) fn any_valid_time() -> Time {
 }
 
 impl SymTime {
+    /// a fixed valid time with an odd second and non-round milliseconds (division-free for the solver)
+    pub fn fixed() -> Self {
+        SymTime { dt: DateTime::new(Date::new(2021, 7, 9), Time::new(13, 47, 33, 987)) }
+    }
     pub fn any() -> Self {
         SymTime { dt: DateTime::new(any_valid_date(), any_valid_time()) }
     }
